@@ -426,7 +426,7 @@ Theorem spec_ok_model c : kf c = 0%N -> spec_ok c (model_obs c) = true.
 Proof.
   intros Hk. unfold spec_ok, model_obs. rewrite Hk. simpl N.eqb. rewrite andb_true_r.
   set (g1 := c_g1 c). set (g2 := c_g2 c).
-  unfold spec_verdicts, spec_canon, spec_diff, spec_skolem. cbn [o_iso o_toiso o_caneq o_cg1 o_cg2 o_both o_first o_second o_sk].
+  unfold spec_verdicts, spec_canon, spec_diff, spec_skolem. cbn [o_iso o_toiso o_caneq o_alt1 o_alt2 o_cg1 o_cg2 o_both o_first o_second o_sk].
   fold g1 g2. rewrite !eqb_reflx, iso_dec_refl. cbn [andb].
   set (cg2 := if iso_dec g1 g2 then g1 else shift_g (N.succ (maxblank g1)) g2).
   destruct (diff_partition g1 cg2) as [A [B _]]. cbv zeta in A, B.
@@ -467,7 +467,8 @@ Qed.
 Theorem spec_verdicts_reading c o :
   spec_verdicts c o = true <->
   ((o_iso o = true <-> iso (c_g1 c) (c_g2 c)) /\ (o_toiso o = true <-> iso (c_g1 c) (c_g2 c))
-   /\ (o_caneq o = true <-> iso (c_g1 c) (c_g2 c))).
+   /\ (o_caneq o = true <-> iso (c_g1 c) (c_g2 c))
+   /\ (o_alt1 o = true <-> iso (c_g1 c) (c_g2 c)) /\ (o_alt2 o = true <-> iso (c_g1 c) (c_g2 c))).
 Proof.
   unfold spec_verdicts. rewrite !andb_true_iff.
   rewrite !(eqb_iff_reading _ _ _ (iso_dec_correct (c_g1 c) (c_g2 c))). tauto.
@@ -502,17 +503,6 @@ Lemma leak_refuted :
             /\ spec_ok c (model_obs c) = false.
 Proof.
   exists {| c_g1 := [(Blank 0, Blank 1, Blank 2)]; c_g2 := [(Blank 3, Blank 4, Blank 5)] |}%N.
-  split; [reflexivity|]. split; [apply iso_dec_correct; vm_compute; reflexivity|].
-  split; vm_compute; reflexivity.
-Qed.
-
-(* Finding FC14b: the recorded witness is a pair of isomorphic graphs on which
-   rdflib (and therefore the model, by table) answers false *)
-Lemma fc14b_refuted :
-  exists c, kf c = 2%N /\ iso (c_g1 c) (c_g2 c) /\ o_iso (model_obs c) = false
-            /\ spec_ok c (model_obs c) = false.
-Proof.
-  exists {| c_g1 := fc14b_g1; c_g2 := fc14b_g2 |}.
   split; [reflexivity|]. split; [apply iso_dec_correct; vm_compute; reflexivity|].
   split; vm_compute; reflexivity.
 Qed.
